@@ -579,4 +579,10 @@ func init() {
 		HarnessSpec{Name: "VerifH_json_wire", Covers: []string{"over-limit", "message"}},
 		HarnessSpec{Name: "VerifH_proto_wire", Covers: []string{"over-limit", "message"}},
 		HarnessSpec{Name: "VerifH_grpc_send", Covers: []string{"compressed-at-limit", "compressed-refused"}})
+	// session of 2026-09-28: well-known types, status details, copy / append in the race detector
+	replaceOutside("C03", "float / double text conversion on SYMBOLIC text", "float / double text conversion on SYMBOLIC text (decided on a menu of concrete texts around the float32 / float64 ranges, converted by the host's encoding/json); FloatValue / DoubleValue / Struct / Value / ListValue parameters; protojson forms of the well-known types outside model_wkt.go (exponent notation, quoted numbers, RFC 3339 offsets other than Z) - there the model answers 'error' and nothing is asserted")
+	replaceOutside("C10", "status details and trailer metadata set by the backend", "trailer metadata set by the backend")
+	replaceOutside("C13", "races on memory touched only inside engine intrinsics (copy, append, library models)", "races on memory touched only inside library models (copy / append element accesses ARE recorded), more than two concurrent requests, schedules beyond the context bound, interleavings of unsynchronised memory accesses between two scheduling points, the proxy's stream pumps under C13 (exercised, with race detection, under C10); pooled-buffer aliasing and pooled gzip reader / writer reuse are decided across consecutive AND concurrent requests")
+	replaceOutside("C12", "schedules with more preemptions than the bound", "schedules with more preemptions than the bound, interleavings of unsynchronised memory accesses between two scheduling points (atomicity violations there are invisible; data RACES on them are reported by the happens-before detector), accesses made inside library models are not race-checked (copy / append element accesses are)")
+
 }
